@@ -238,6 +238,29 @@ static void do_enc(char* line) {
   free(b1); free(b2);
 }
 
+/* ------------------------------------------------------------------ stream: encdec (C10) */
+static void do_encdec(char* line) {
+  char e[64]; char vs[64];
+  if (sscanf(line, "%63s %63s", e, vs) != 2) { ob_printf("BADCASE"); return; }
+  uint64_t v = parse_u64(vs);
+  unsigned char b[16]; memset(b, 0xEE, sizeof b);
+  bool known;
+  a_reset();
+  size_t r = call_encoder(e, v, b, 12, &known);
+  if (!known) { ob_printf("BADCASE"); return; }
+  ob_printf("%zu ", r); ob_hex(b, r); ob_printf(" -> ");
+  /* decode exactly the bytes written followed by one extra byte */
+  unsigned char* buf = malloc(r + 1); memcpy(buf, b, r); buf[r] = 0xFF;
+  char* save = ob; size_t save_len = ob_len, save_cap = ob_cap;
+  ob = NULL; ob_len = 0; ob_cap = 0;
+  rec_base = buf; rec_count = 0; rec_offsets = true;
+  struct cbor_decoder_result d = cbor_stream_decode(buf, r + 1, &rec_callbacks, NULL);
+  char* ev = ob; ob = save; ob_len = save_len; ob_cap = save_cap;
+  ob_printf("%s %zu %zu %s", status_s(d.status), d.read, d.required, rec_count ? ev : "-");
+  if (a_requests) ob_printf(" ALLOCS=%lu", a_requests);
+  free(ev); free(buf);
+}
+
 /* ------------------------------------------------------------------ item dump */
 static bool dump_rc_ok;
 static void dump_item(cbor_item_t* it) {
@@ -659,6 +682,7 @@ int main(int argc, char** argv) {
   void (*f)(char*) = NULL;
   if (!strcmp(stream, "dec1")) f = do_dec1;
   else if (!strcmp(stream, "enc")) f = do_enc;
+  else if (!strcmp(stream, "encdec")) f = do_encdec;
   else if (!strcmp(stream, "load")) f = do_load;
   else if (!strcmp(stream, "ser")) f = do_ser;
   else if (!strcmp(stream, "utf8")) f = do_utf8;
